@@ -26,15 +26,20 @@ from common import Model
 
 logging.disable(logging.CRITICAL)
 
-LEAN_TARGETS = ["NfcVerif.Props.C02", "drv_t12"]
+LEAN_TARGETS = ["NfcVerif.Props.C02", "drv_t12", "drv_c02"]
 PARTS = ["t34"] if os.path.exists(os.path.join(os.path.dirname(os.path.abspath(__file__)), "c02_t34.py")) else []
 
 THEOREMS = [
     "NfcVerif.C02.t12_cut_safe",
     "NfcVerif.C02.t12_prefix_mixture",
     "NfcVerif.C02.t12_prefix_threshold",
+    "NfcVerif.C02.t12_history_extends_writer",
     "NfcVerif.C02.t12_cache_coherent",
+    "NfcVerif.C02.t12_sync_is_prefix",
     "NfcVerif.C02.t12_retry_cut_safe",
+    "NfcVerif.C02.t12_history_cut_safe",
+    "NfcVerif.C02.t12_history_cut_safe_strict",
+    "NfcVerif.C02.t12_unacknowledged_mixture_asFound",
 ]
 
 GOOD = ("O", "E", "N", "U", "W")
@@ -124,66 +129,173 @@ def run(ck):
     ck.tie("Tlv model vs tt1/tt2: write command order and the reader's view after every cut point",
            cases=sum(len(r.cut_classes or []) for r in runs), disagreements=dis, exhaustive=False)
     ck.notes.append("%d writes, every cut point of each" % len(runs))
-    # ------------------------------------------------------------------ lost command, then a retry on the same object
-    from sims.t12_run import Retry
-    nret = 400 if ck.thorough else 60
-    rruns = []
-    for i in range(nret):
-        kind = ("t2", "t1d", "t1s", "t2")[i % 4]
-        lay = layout_with_old(rng, kind, False, [0, 10, 200, 255, lambda f: f - 4])
-        cap = lay["free"] - (4 if lay["free"] > 256 else 2)
-        n1 = max(1, min(cap, rng.choice([1, 10, 60, 254, 255, 300, cap])))
-        if cap > 330 and not ck.thorough:
-            n1 = min(n1, 300)
-        d1 = bytes(rng.randrange(1, 256) for _ in range(n1))
-        probe = Run(lay, d1)
-        if probe.nd is None or probe.wrote != "ok" or not probe.cmds:
-            continue
-        ncmd = len(probe.cmds)
-        same = rng.random() < 0.5
-        n2 = n1 if same else max(1 if f1 else 0, min(cap, rng.choice([0, 1, 5, 100, 254, 255, 280, cap])))
-        d2 = d1 if same else bytes(rng.randrange(1, 256) for _ in range(n2))
-        ks = sorted(set([0, 1, ncmd // 2, ncmd - 2, ncmd - 1, rng.randrange(ncmd)]) & set(range(ncmd)))
-        if not ck.thorough:
-            ks = rng.sample(ks, min(3, len(ks)))
-        for k in ks:
-            full = Retry(lay, d1, k, d2, None)
-            rruns.append(full)
-            if not full.failed:
-                ck.fail("t12-lost-command-not-reported", "%s: command %d of %d was lost but the write ended %s"
-                        % (kind, k, ncmd, full.first), full.replay())
-                continue
-            n2cmd = len(full.cmds)
-            js = sorted(set([0, 1, n2cmd // 2, n2cmd - 1, rng.randrange(n2cmd + 1)]) & set(range(n2cmd)))
-            if not ck.thorough:
-                js = rng.sample(js, min(2, len(js)))
-            for r in [full] + [Retry(lay, d1, k, d2, j) for j in js]:
-                if r is not full:
-                    rruns.append(r)
-                ck.case(("retry", kind, r.base, d1, k, d2, r.j), True,
-                        "retry:%s:%s" % (kind, "complete" if r.j is None else "cut"),
-                        sample={"kind": kind, "first": n1, "lost": k, "of": ncmd, "second": len(d2), "cut": r.j,
-                                "sees": None if r.seen is None else len(r.seen)} if len(rruns) < 3 else None)
-                what = ("%s: NDEF TLV at %d, old %d bytes; write of %d bytes, command %d of %d lost; same object then "
-                        "writes %d bytes%s: a fresh reader sees %s"
-                        % (kind, lay["off"], len(r.old), n1, k, ncmd, len(d2),
-                           "" if r.j is None else ", cut after command %d" % r.j,
-                           "no NDEF / exception" if r.seen is None else "%d bytes" % len(r.seen)))
-                if r.second.startswith("exc"):
-                    ck.fail("t12-retry-raises", what + " (retry raised %s)" % r.second[4:], r.replay())
-                elif r.j is None:
-                    if r.seen != d2 or r.second != "ok":
-                        ck.fail("t12-retry-after-lost-command-corrupt", what + " instead of the new message", r.replay())
-                elif r.seen is None or r.seen not in (r.seen_after_fail, b"", d2):
-                    ck.fail("t12-retry-after-lost-command-corrupt", what + " (neither what was there before the retry, "
-                            "nor empty, nor the new message)", r.replay())
-    replies = model.ask_many([r.request() for r in rruns])
-    dis = 0
-    for r, rep in zip(rruns, replies):
-        if rep != r.line:
-            dis += 1
-            ck.fail("tie:t12-retry-model-vs-nfcpy", "model %r, implementation %r" % (rep[-300:], r.line[-300:]),
-                    dict(r.replay(), model=rep, impl=r.line))
-    ck.tie("Tlv model vs tt1/tt2: lost command, then a second write on the same NDEF object (commands, reader's view)",
-           cases=len(rruns), disagreements=dis, exhaustive=False)
+    # ------------------------------------------------------------------ histories: faults of both kinds, retries
+    try:
+        histories(ck, f1)
+    except Exception as e:  # noqa  nfcpy returned / raised something the oracle code did not foresee
+        from common import exc_name, Infra
+        if isinstance(e, Infra):
+            raise
+        import traceback
+        ck.fail("t12-history-unexpected-behaviour", "exploring histories ended with %s: %s"
+                % (exc_name(e), traceback.format_exc().strip().split("\n")[-3:]), {"seed": ck.seed})
 
+
+KEY_STALE = "t12-stale-picture-after-unacknowledged-write"
+
+
+def variants(rng, d1, old, cap, k, f1):
+    """messages of the attempt that follows a failed attempt of d1"""
+    n = len(d1)
+    other = bytes((b + 1 + k) & 255 or 1 for b in d1)
+    cross = 255 if n < 255 else 254
+    pool = [d1, b"", old[:cap], other,
+            bytes(rng.randrange(1, 256) for _ in range(max(0, min(cap, cross)))),
+            bytes(rng.randrange(1, 256) for _ in range(max(0, min(cap, n + rng.choice([-1, 1, 7, -7]))))),
+            bytes(rng.randrange(1, 256) for _ in range(cap))]
+    if f1:
+        pool = [x if x else b"\x01" for x in pool]
+    return pool
+
+
+def judge_history(ck, h, lay):
+    """the property on the real code, attempt by attempt: a fresh reader after attempt i sees what it saw before the
+    attempt, an empty message, no NDEF / not readable, or exactly the octets of attempt i; a completed attempt is read
+    back; a triggered fault is reported as TagCommandError"""
+    from sims.c02_hist import describe
+    kind = h.kind
+    seen_before = h.old
+    late_before = False
+    for i, ((data, fault), res, view) in enumerate(zip(h.attempts, h.results, h.views)):
+        where = "%s: NDEF TLV at %d, old %d octets; %s" % (kind, lay["off"], len(h.old), describe(h))
+        trig = fault is not None and h.triggered[i]
+        if trig and res == "ok":
+            ck.fail("t12-lost-command-not-reported", where + ": attempt %d returned normally although command %d failed"
+                    % (i, fault[0]), h.replay())
+            return
+        if res.startswith("exc") and not (len(data) > h.cap and res == "exc ValueError"):
+            ck.fail("t12-retry-raises" if i else "t12-interrupted-write-raises", where + ": attempt %d raised %s" % (i, res[4:]),
+                    h.replay())
+            return
+        if not trig and len(data) <= h.cap and res != "ok":
+            ck.fail("t12-retry-raises", where + ": attempt %d (no fault triggered) ended %s" % (i, res), h.replay())
+            return
+        line, octets, cap = view
+        good = line == "none" or octets in (seen_before, b"") or (octets == data and len(data) <= h.cap)
+        if line.startswith("exc"):
+            ck.fail("t12-cut-reader-raises", where + ": after attempt %d a fresh reader raises %s" % (i, line[4:]), h.replay())
+            return
+        if res == "ok" and octets != data:
+            good = False
+        if octets is not None and cap != h.cap:
+            good = False
+        if not good:
+            what = (where + ": after attempt %d a fresh reader sees %s, which is neither what was there before the attempt "
+                    "(%d octets), nor empty, nor the octets of the attempt"
+                    % (i, "%d octets %s.. capacity %s" % (len(octets), octets[:8].hex(), cap) if octets is not None else line,
+                       -1 if seen_before is None else len(seen_before)))
+            ck.fail(KEY_STALE if late_before else "t12-retry-after-lost-command-corrupt", what, h.replay())
+            return
+        late_before = late_before or (trig and fault[1] == "late")
+        seen_before = octets
+
+
+def histories(ck, f1):
+    from sims.t12_run import layout_with_old
+    from sims.c02_hist import HistRun, MODES, probe_unconfirmed_repair
+    rng = ck.rng
+    rep = probe_unconfirmed_repair()
+    ck.notes.append("tree under test sends the unit of an unacknowledged write again (fixes/C02/0002) = %s; the model "
+                    "variant compared is %s" % (rep, "historyR" if rep else "history (as found)"))
+    model = Model("drv_c02")
+    limit = 40 if ck.thorough else 7
+    hs = []
+
+    def add(h, lay, bucket):
+        hs.append((h, lay))
+        if h.obj.nd is None:
+            return
+        nontriv = any(h.triggered)
+        ck.case(("hist", h.kind, h.base, tuple(h.attempts)), nontriv, bucket,
+                sample={"kind": h.kind, "attempts": [(len(d), f) for d, f in h.attempts], "results": h.results,
+                        "sees": [None if v[1] is None else len(v[1]) for v in h.views]}
+                if nontriv and len(ck.samples) < 6 and len(h.attempts) > 1 else None)
+        judge_history(ck, h, lay)
+
+    lays = []
+    n12 = 6 if ck.thorough else 2
+    for kind in ("t2", "t1d", "t1s"):
+        for i in range(n12):
+            lays.append((kind, layout_with_old(rng, kind, False, [0, 5, 30, 254, 255, lambda f: f - 4])))
+        if kind != "t1s":
+            for tf in ((254, 257, 258, 261, 300) if ck.thorough else (rng.choice([257, 258]), 261)):
+                lays.append((kind, layout_with_old(rng, kind, False, [0, 254, 255], target_free=tf)))
+    for kind, lay in lays:
+        probe = HistRun(kind, lay, [(b"\x01", None)])
+        if probe.obj.nd is None:
+            ck.fail("t12-wellformed-layout-not-read", "%s: %s" % (kind, probe.line[:80]), probe.replay())
+            continue
+        cap, old = probe.cap, probe.old
+        if cap < 1:
+            continue
+        lens = sorted(set(n for n in [rng.randrange(1, 9), min(cap, rng.choice([17, 40, 47])), 254, 255, 256, cap] if 1 <= n <= cap))
+        if not ck.thorough and len(lens) > 2:
+            lens = sorted(set([rng.choice(lens[:-1]), lens[-1]])) if cap <= 400 else sorted(set([lens[0], rng.choice([254, 255, 256])]))
+        for n1 in lens:
+            d1 = bytes(rng.randrange(1, 256) for _ in range(n1))
+            clean = HistRun(kind, lay, [(d1, None)])
+            add(clean, lay, "hist:%s:clean" % kind)
+            if clean.results != ["ok"]:
+                continue
+            ncmd = clean.ncmds[0]
+            ks = list(range(ncmd)) if ncmd <= limit else sorted(set([0, 1, ncmd - 3, ncmd - 2, ncmd - 1]
+                                                                    + rng.sample(range(ncmd), limit - 5)))
+            for k in ks:
+                for mi, mode in enumerate(MODES[kind]):
+                    if mode == "status" and not ck.thorough and (k + mi) % 3:
+                        continue
+                    pool = variants(rng, d1, old, cap, k, f1)
+                    picks = [pool[(k + mi) % len(pool)]]
+                    if k >= ncmd - 2 or k == 0:
+                        picks = pool[:4]          # the first / last commands carry the length field: every follow-up kind
+                    for d2 in picks:
+                        # second attempt: complete, or disturbed again at a command of ITS sequence
+                        add(HistRun(kind, lay, [(d1, (k, mode)), (d2, None)]), lay, "hist:%s:1-fault:%s" % (kind, mode))
+                    d2 = picks[0]
+                    j = rng.randrange(0, 4)
+                    m2 = rng.choice(MODES[kind][:2])
+                    d3 = rng.choice(pool)
+                    add(HistRun(kind, lay, [(d1, (k, mode)), (d2, (j, m2)), (d3, None)]), lay,
+                        "hist:%s:2-faults:%s+%s" % (kind, mode, m2))
+            for _ in range(8 if ck.thorough else 2):
+                nf = rng.choice([2, 3, 4])
+                atts, d = [], d1
+                for _i in range(nf):
+                    atts.append((d, (rng.randrange(0, max(1, ncmd)), rng.choice(MODES[kind]))))
+                    d = rng.choice(variants(rng, d1, old, min(cap, 600), rng.randrange(9), f1))
+                if rng.random() < 0.6:
+                    atts.append((d, None))
+                add(HistRun(kind, lay, atts), lay, "hist:%s:%d-faults" % (kind, nf))
+    replies = model.ask_many([h.request(repaired=rep) for h, _ in hs])
+    dis = 0
+    for (h, _), r in zip(hs, replies):
+        if r != h.line:
+            dis += 1
+            ck.fail("tie:t12-retry-model-vs-nfcpy", "%s: model %r, implementation %r" % (h.kind, r[-300:], h.line[-300:]),
+                    dict(h.replay(), request=h.request(repaired=rep)[:3000], model=r[:3000], impl=h.line[:3000]))
+    ck.tie("Hist model (%s) vs tt1/tt2: assignments through one tag object with faults of both kinds - outcome, ordered "
+           "commands and the fresh reader's view after EVERY attempt" % ("repaired memory reader" if rep else "as found"),
+           cases=len(hs), disagreements=dis, exhaustive=False)
+    if not rep:
+        witness(ck)
+
+
+def witness(ck):
+    """the tree lacks fixes/C02/0002: replay the counter-example of Props/C02 (t12_unacknowledged_mixture_asFound)"""
+    from sims.c02_hist import HistRun
+    mem = bytearray(64)
+    mem[12:23] = bytes([0xE1, 0x10, 6, 0, 0, 0, 3, 2, 0xAA, 0xBB, 0xFE])
+    lay = {"kind": "t2", "mem": mem, "off": 18}
+    h = HistRun("t2", lay, [(b"\x01\x02\x03", (2, "late")), (b"", None)])
+    ck.case(("hist", "witness"), True, "hist:t2:witness")
+    judge_history(ck, h, lay)
